@@ -203,25 +203,27 @@ theorem finCorner_nat_aux (v : Nat) (vt vn : Option Nat) :
   have h0 : ¬ ((v : Int) < 0) := by omega
   cases vt <;> cases vn <;> simp [finCorner, h0] <;> omega
 
-/-- **`parseObjFaceComponent` undoes the writer's corner token** (every index in the int64 range) -/
-theorem parseCornerL_showCornerL (c : Corner) (hv : c.v < 2 ^ 63) (ht : ∀ t, c.vt = some t → t < 2 ^ 63)
-    (hn : ∀ n, c.vn = some n → n < 2 ^ 63) : parseCornerL (showCornerL c) = .ok c := by
+/-- the corner law over any integer parser that reads back the printed indices -/
+theorem parseCornerG_showCornerL (io : List Char → Except Err Int) (P : Nat → Prop)
+    (hio : ∀ k, P k → io (showNat k) = .ok (k : Int)) (c : Corner) (hv : P c.v) (ht : ∀ t, c.vt = some t → P t)
+    (hn : ∀ n, c.vn = some n → P n) : parseCornerG io (showCornerL c) = .ok c := by
   obtain ⟨v, vt, vn⟩ := c
   simp only at hv ht hn
+  have hv := hio v hv
   have nv := noSlash_showNat_aux v
   cases vt with
   | none =>
     cases vn with
     | none =>
       simp only [showCornerL]
-      unfold parseCornerL
-      simp only [splitS_noSlash_aux _ nv, intOf_showNat_aux v hv]
+      unfold parseCornerG
+      simp only [splitS_noSlash_aux _ nv, hv]
       exact finCorner_nat_aux v none none
     | some n =>
-      have hn' := hn n rfl
+      have hn' := hio n (hn n rfl)
       obtain ⟨e, r, hs, he, hsp, hns⟩ := showNat_cons_aux n
       simp only [showCornerL]
-      unfold parseCornerL
+      unfold parseCornerG
       have s1 : splitS (showNat v ++ '/' :: '/' :: showNat n) = [showNat v, [], showNat n] := by
         rw [splitS_append_aux _ _ nv]
         have : splitS ('/' :: showNat n) = [] :: splitS (showNat n) := by simp [splitS]
@@ -230,29 +232,29 @@ theorem parseCornerL_showCornerL (c : Corner) (hv : c.v < 2 ^ 63) (ht : ∀ t, c
         rw [splitDS_double_aux _ _ nv, splitDS_noSlash_aux _ (noSlash_showNat_aux n)]
       have hall : (showNat n).all ObjText.isSpace = false := by rw [hs]; simp [hsp]
       simp only [s1, s2, List.length_cons, List.length_nil, List.getD_cons_zero, List.getD_cons_succ,
-        intOf_showNat_aux v hv, intOf_showNat_aux n hn', hall]
+        hv, hn', hall]
       simpa using finCorner_nat_aux v none (some n)
   | some t =>
-    have ht' := ht t rfl
+    have ht' := hio t (ht t rfl)
     have nt := noSlash_showNat_aux t
     obtain ⟨e, r, hs, he, hsp, hns⟩ := showNat_cons_aux t
     cases vn with
     | none =>
       simp only [showCornerL]
-      unfold parseCornerL
+      unfold parseCornerG
       have s1 : splitS (showNat v ++ '/' :: showNat t) = [showNat v, showNat t] := by
         rw [splitS_append_aux _ _ nv, splitS_noSlash_aux _ nt]
       have s2 : splitDS (showNat v ++ '/' :: showNat t) = [showNat v ++ '/' :: showNat t] := by
         rw [hs]
         exact splitDS_single_aux e r he (splitDS_noSlash_aux _ hns) _ nv
       simp only [s1, s2, List.length_cons, List.length_nil, List.getD_cons_zero, List.getD_cons_succ,
-        intOf_showNat_aux v hv, intOf_showNat_aux t ht']
+        hv, ht']
       simpa using finCorner_nat_aux v (some t) none
     | some n =>
-      have hn' := hn n rfl
+      have hn' := hio n (hn n rfl)
       obtain ⟨e3, r3, hs3, he3, _, hns3⟩ := showNat_cons_aux n
       simp only [showCornerL]
-      unfold parseCornerL
+      unfold parseCornerG
       have s1 : splitS (showNat v ++ '/' :: (showNat t ++ '/' :: showNat n)) = [showNat v, showNat t, showNat n] := by
         rw [splitS_append_aux _ _ nv, splitS_append_aux _ _ nt, splitS_noSlash_aux _ (noSlash_showNat_aux n)]
       have s2 : splitDS (showNat v ++ '/' :: (showNat t ++ '/' :: showNat n)) =
@@ -263,8 +265,13 @@ theorem parseCornerL_showCornerL (c : Corner) (hv : c.v < 2 ^ 63) (ht : ∀ t, c
         rw [hs] at inner ⊢
         exact splitDS_single_aux e (r ++ '/' :: showNat n) he inner _ nv
       simp only [s1, s2, List.length_cons, List.length_nil, List.getD_cons_zero, List.getD_cons_succ,
-        intOf_showNat_aux v hv, intOf_showNat_aux t ht', intOf_showNat_aux n hn']
+        hv, ht', hn']
       simpa using finCorner_nat_aux v (some t) (some n)
+
+/-- **`parseObjFaceComponent` undoes the writer's corner token** (every index in the int64 range) -/
+theorem parseCornerL_showCornerL (c : Corner) (hv : c.v < 2 ^ 63) (ht : ∀ t, c.vt = some t → t < 2 ^ 63)
+    (hn : ∀ n, c.vn = some n → n < 2 ^ 63) : parseCornerL (showCornerL c) = .ok c :=
+  parseCornerG_showCornerL intOf (· < 2 ^ 63) intOf_showNat_aux c hv ht hn
 
 /-- the corner token contains no blank (it survives `strings.Fields`) and is not empty -/
 theorem showCornerL_chars (c : Corner) :
